@@ -143,6 +143,30 @@ pub fn runtime() -> tokio::runtime::Runtime {
 // ---------------------------------------------------------------------------------------------
 // payload classes
 // ---------------------------------------------------------------------------------------------
+/// Payloads that LOOK like compressed data: a decoded tile may itself be a gzip/brotli file, start with the gzip
+/// magic, or equal the compressed form of another payload.  A recompressor must treat them as opaque bytes
+/// (no "already compressed, skip" shortcuts) – seeded regression C04-1.
+pub fn adversarial_payloads() -> Vec<(&'static str, Vec<u8>)> {
+	let inner: Vec<u8> = b"inner payload of a tile that is itself a compressed file 0123456789 0123456789 0123456789".to_vec();
+	let other: Vec<u8> = (0..300u32).map(|i| (i * 7 % 251) as u8).collect();
+	let mut gz_magic_garbage = vec![0x1f, 0x8b, 0x08];
+	gz_magic_garbage.extend((0..40u8).map(|i| i.wrapping_mul(37) ^ 0x5a));
+	let mut br_like_garbage = vec![0x1b, 0x57, 0x00, 0xf8]; // a plausible brotli stream header, then garbage
+	br_like_garbage.extend((0..40u8).map(|i| i.wrapping_mul(91) ^ 0xa5));
+	vec![
+		("is_gzip_stream", gz_enc(&inner, 6)),
+		("is_gzip_stream_best", compress(Blob::from(inner.clone()), &TileCompression::Gzip).unwrap().into_vec()), // exactly what the pipeline itself would produce
+		("is_brotli_stream", br_enc(&inner, 5, 22)),
+		("is_brotli_stream_best", compress(Blob::from(other.clone()), &TileCompression::Brotli).unwrap().into_vec()),
+		("gzip_magic_then_garbage", gz_magic_garbage),
+		("gzip_magic_only", vec![0x1f, 0x8b, 0x08]),
+		("brotli_like_then_garbage", br_like_garbage),
+		("gzip_of_gzip", gz_enc(&gz_enc(&other, 9), 6)),
+		("empty_gzip_stream", gz_enc(&[], 6)),
+		("empty_brotli_stream", br_enc(&[], 5, 22)),
+	]
+}
+
 pub struct Payloads {
 	pub list: Vec<(&'static str, (u8, u32, u32), Vec<u8>)>,
 }
@@ -155,8 +179,10 @@ pub fn payload_classes(seed: u64, format: TileFormat) -> Payloads {
 	}
 	compressible.truncate(200 * 1024);
 	let small: Vec<u8> = if format == TileFormat::PNG { MOCK_BYTES_PNG.to_vec() } else { MOCK_BYTES_PBF.to_vec() };
-	Payloads {
-		list: vec![
+	let adv = adversarial_payloads();
+	let adv_coords: [(u8, u32, u32); 10] = [(3, 0, 0), (3, 1, 0), (3, 2, 0), (3, 3, 0), (3, 4, 0), (3, 0, 1), (3, 1, 1), (3, 2, 1), (3, 3, 1), (3, 4, 1)];
+	let mut list: Vec<(&'static str, (u8, u32, u32), Vec<u8>)> = adv.into_iter().zip(adv_coords).map(|((n, p), c)| (n, c, p)).collect();
+	let mut base: Vec<(&'static str, (u8, u32, u32), Vec<u8>)> = vec![
 			("one_byte", (2, 1, 1), vec![0x42]),
 			("empty", (2, 2, 2), vec![]), // a zero-length payload (e.g. a vector tile without layers)
 			("incompressible_70k", (2, 2, 1), incompressible),
@@ -166,8 +192,9 @@ pub fn payload_classes(seed: u64, format: TileFormat) -> Payloads {
 			("one_byte_far", (9, 300, 301), vec![0x42]), // second block of a level
 			("zeros_999", (9, 301, 300), vec![0u8; 999]),
 			("zeros_1000", (9, 300, 300), vec![0u8; 1000]), // around the <1000 byte de-dup threshold
-		],
-	}
+	];
+	base.append(&mut list);
+	Payloads { list: base }
 }
 
 const META_KEYS: [&str; 6] = ["name", "description", "author", "license", "version", "attribution"];
@@ -507,6 +534,143 @@ fn e2e_case(out: &mut Out, args: &Args, rt: &tokio::runtime::Runtime, n: &mut us
 }
 
 // ---------------------------------------------------------------------------------------------
+// TileConverter::process_stream on its own (the path every writer uses)
+// ---------------------------------------------------------------------------------------------
+fn stream_check(out: &mut Out, rt: &tokio::runtime::Runtime, s: TileCompression, d: TileCompression, f: bool) {
+	use versatiles_core::types::TileStream;
+	let mut payloads: Vec<(String, Vec<u8>)> = adversarial_payloads().into_iter().map(|(n, p)| (n.to_string(), p)).collect();
+	payloads.push(("one_byte".into(), vec![0x42]));
+	payloads.push(("text".into(), b"plain text payload plain text payload".to_vec()));
+	let items: Vec<(TileCoord3, Blob)> = payloads.iter().enumerate().map(|(i, (_, p))| (TileCoord3::new(i as u32, 0, 6).unwrap(), Blob::from(indep_enc(s, p)))).collect();
+	let r = catch(|| {
+		rt.block_on(async {
+			let conv = TileConverter::new_tile_recompressor(&s, &d, f).unwrap();
+			let st = conv.process_stream(TileStream::from_vec(items.clone()));
+			st.collect().await
+		})
+	});
+	let key = format!("C04 stream {} {} {}", cname(s), cname(d), f as u8);
+	match r {
+		Err(m) => out.oracle(false, "C04 stream panic", json!({"kind":"stream_panic","src":cname(s),"dst":cname(d),"force":f}), json!({"case": key, "panic": trunc(&m, 160)})),
+		Ok(v) => {
+			let got: BTreeMap<u32, Vec<u8>> = v.into_iter().map(|(c, b)| (c.x, b.into_vec())).collect();
+			out.oracle(got.len() == payloads.len(), "C04 stream count", json!({"kind":"stream_count","src":cname(s),"dst":cname(d),"force":f}), json!({"case": key, "got": got.len()}));
+			for (i, (name, p)) in payloads.iter().enumerate() {
+				let dec = got.get(&(i as u32)).and_then(|b| indep_dec(d, b));
+				out.oracle(
+					dec.as_ref() == Some(p),
+					"C04 stream payload",
+					json!({"kind":"stream_payload","src":cname(s),"dst":cname(d),"force":f,"class":name}),
+					json!({"case": key, "class": name, "payload_hex": hex(&p[..p.len().min(24)])}),
+				);
+				out.eval(&format!("{key} {name}"), f || s != d);
+			}
+		}
+	}
+	out.count("stream_checks");
+}
+
+// ---------------------------------------------------------------------------------------------
+// a PMTiles conversion whose directory spills into leaf directories (seeded regression C04-2): the leaf
+// directories must not land on the metadata / tile data
+// ---------------------------------------------------------------------------------------------
+fn leaves_case(out: &mut Out, args: &Args, rt: &tokio::runtime::Runtime, s: TileCompression, t: Option<TileCompression>, f: bool) {
+	let line = format!("C04 leaves {} {} {}", cname(s), t.map_or("keep", cname), f as u8);
+	let sig = |kind: &str| json!({"kind":kind,"fmt":"pmtiles-leaves","src":cname(s),"target":t.map_or("keep", cname),"force":f});
+	// 130 × 130 = 16900 tiles (> 16384 entries ⇒ leaf directories) of irregular sizes, so that the directory
+	// compresses badly and the leaf directories together exceed the 16 KiB reserved in front of the metadata
+	let mut rng = Rng::new(args.seed ^ 0x1eaf);
+	let z = 8u8;
+	let (x0, y0) = (17u32, 40u32);
+	let mut payloads: BTreeMap<(u8, u32, u32), Vec<u8>> = BTreeMap::new();
+	for x in 0..130u32 {
+		for y in 0..130u32 {
+			let n = rng.range(1, 220) as usize;
+			let p: Vec<u8> = if rng.chance(1, 3) { rng.bytes(n) } else { (0..n).map(|j| ((j as u32 * (x + 3) + y) % 11) as u8 + 97).collect() };
+			payloads.insert((z, x0 + x, y0 + y), p);
+		}
+	}
+	let src_tiles: Vec<((u8, u32, u32), Vec<u8>)> = payloads.iter().map(|(c, p)| (*c, if s == TileCompression::Gzip { gz_enc(p, 1) } else if s == TileCompression::Brotli { br_enc(p, 1, 16) } else { p.clone() })).collect();
+	let tilejson = source_tilejson(true);
+	let dir = args.out.join("e2e");
+	std::fs::create_dir_all(&dir).unwrap();
+	let path = dir.join(format!("leaves_{}_{}_{}.pmtiles", cname(s), t.map_or("keep", cname), f as u8));
+	let path_s = path.to_str().unwrap().to_string();
+	let reader = MemReader::new(TileFormat::PBF, s, tilejson.clone(), &src_tiles);
+	let cp = TilesConverterParameters::new(t, None, f, false, false);
+	let r = catch(|| rt.block_on(convert_tiles_container(reader.boxed(), cp, &path_s)));
+	let expected_declared = t.unwrap_or(s);
+	let ans = match r {
+		Err(m) => {
+			out.oracle(false, "C04 leaves panic", sig("e2e_panic"), json!({"case": line, "panic": trunc(&m, 200)}));
+			"panic".to_string()
+		}
+		Ok(Err(e)) => {
+			out.oracle(false, "C04 leaves error", sig("e2e_error"), json!({"case": line, "error": trunc(&format!("{e:#}"), 200)}));
+			"err".to_string()
+		}
+		Ok(Ok(())) => {
+			let coords: Vec<(u8, u32, u32)> = payloads.keys().cloned().collect();
+			let rb = catch(|| {
+				rt.block_on(async {
+					let rd = get_reader(&path_s).await?;
+					let p = rd.get_parameters().clone();
+					// every 7th tile by lookup (plus the corners), all tiles by stream
+					let mut lookups = vec![];
+					for (i, c) in coords.iter().enumerate() {
+						if i % 7 == 0 || i < 40 || i + 40 > coords.len() {
+							let b = rd.get_tile_data(&TileCoord3::new(c.1, c.2, c.0)?).await.ok().flatten();
+							lookups.push((*c, b.map(|b| b.into_vec())));
+						}
+					}
+					let mut streamed: BTreeMap<(u8, u32, u32), Vec<u8>> = BTreeMap::new();
+					for bbox in p.bbox_pyramid.iter_levels() {
+						for (c, b) in rd.get_bbox_tile_stream(bbox.clone()).await.collect().await {
+							streamed.insert((c.z, c.x, c.y), b.into_vec());
+						}
+					}
+					let meta: Vec<Option<String>> = META_KEYS.iter().map(|k| rd.get_tilejson().get_string(k)).collect();
+					let vl = rd.get_tilejson().as_object().get("vector_layers").map(|v| v.stringify());
+					anyhow::Ok((p, lookups, streamed, meta, vl))
+				})
+			});
+			match rb {
+				Ok(Ok((p, lookups, streamed, meta, vl))) => {
+					let declared = p.tile_compression;
+					out.oracle(declared == expected_declared, "C04 leaves declared", sig("e2e_declared"), json!({"case": line, "declared": cname(declared)}));
+					let bad_lookup: Vec<String> = lookups.iter().filter(|(c, b)| b.as_ref().and_then(|b| indep_dec(declared, b)).as_ref() != payloads.get(c)).take(5).map(|(c, _)| format!("{}/{}/{}", c.0, c.1, c.2)).collect();
+					out.oracle(bad_lookup.is_empty(), "C04 leaves payload (lookup)", sig("leaves_lookup_payload"), json!({"case": line, "first_bad": bad_lookup, "checked": lookups.len()}));
+					let bad_stream: Vec<String> = payloads.iter().filter(|(c, p)| streamed.get(*c).and_then(|b| indep_dec(declared, b)).as_ref() != Some(*p)).take(5).map(|(c, _)| format!("{}/{}/{}", c.0, c.1, c.2)).collect();
+					out.oracle(bad_stream.is_empty() && streamed.len() == payloads.len(), "C04 leaves payload (stream)", sig("leaves_stream_payload"), json!({"case": line, "first_bad": bad_stream, "streamed": streamed.len(), "expected": payloads.len()}));
+					let src_meta: Vec<Option<String>> = META_KEYS.iter().map(|k| tilejson.get_string(k)).collect();
+					out.oracle(meta == src_meta, "C04 leaves metadata", sig("leaves_meta"), json!({"case": line, "got": meta, "want": src_meta}));
+					let src_vl = tilejson.as_object().get("vector_layers").map(|v| v.stringify());
+					out.oracle(vl == src_vl, "C04 leaves metadata", sig("leaves_meta_vector_layers"), json!({"case": line}));
+					// make sure the case really exercises leaf directories: header bytes 48..56 = leaf_dirs length (PMTiles v3)
+					let raw = std::fs::read(&path).unwrap_or_default();
+					let leaf_len = if raw.len() >= 56 { u64::from_le_bytes(raw[48..56].try_into().unwrap()) } else { 0 };
+					out.extra.insert(format!("leaves_{}", line.replace(' ', "_")), json!({"tiles": payloads.len(), "leaf_directory_bytes": leaf_len, "file_bytes": raw.len()}));
+					out.oracle(leaf_len > 16384, "C04 leaves set-up: leaf directories too small to matter", sig("leaves_setup"), json!({"case": line, "leaf_directory_bytes": leaf_len}));
+					out.eval(&line, true);
+					out.count_n("leaves_tiles_checked", (lookups.len() + streamed.len()) as u64);
+					format!("declared={}", cname(declared))
+				}
+				Ok(Err(e)) => {
+					out.oracle(false, "C04 leaves readback error", sig("leaves_readback"), json!({"case": line, "error": trunc(&format!("{e:#}"), 200)}));
+					"readback-err".into()
+				}
+				Err(m) => {
+					out.oracle(false, "C04 leaves readback panic", sig("leaves_readback_panic"), json!({"case": line, "panic": trunc(&m, 200)}));
+					"readback-panic".into()
+				}
+			}
+		}
+	};
+	out.case(&line, &ans, true);
+	let _ = std::fs::remove_file(&path);
+}
+
+// ---------------------------------------------------------------------------------------------
 // assumed codec laws, tested on the real crates
 // ---------------------------------------------------------------------------------------------
 fn law_checks(out: &mut Out, args: &Args, rng: &mut Rng) {
@@ -583,6 +747,13 @@ fn law_checks(out: &mut Out, args: &Args, rng: &mut Rng) {
 
 fn small_payloads(rng: &mut Rng, n: usize) -> Vec<Vec<u8>> {
 	let mut v = vec![vec![], vec![0], vec![0x1f, 0x8b], vec![0xff; 3]];
+	// payloads that look compressed (kept short: they travel in the case line)
+	v.push(vec![0x1f, 0x8b, 0x08]);
+	v.push(vec![0x1f, 0x8b, 0x08, 0x00, 0xde, 0xad, 0xbe, 0xef, 0x01, 0x02]);
+	v.push(gz_enc(b"x", 6));
+	v.push(compress(Blob::from(b"yy".to_vec()), &TileCompression::Gzip).unwrap().into_vec());
+	v.push(br_enc(b"zzz", 5, 22));
+	v.push(vec![0x1b, 0x57, 0x00, 0xf8, 0x33]);
 	for _ in 0..n {
 		let len = rng.range(1, 24) as usize;
 		v.push(rng.bytes(len));
@@ -602,6 +773,8 @@ fn replay_line(out: &mut Out, args: &Args, rt: &tokio::runtime::Runtime, n: &mut
 		["C04", "conv", s, tg, f] => conv_case(out, parse_comp(s).unwrap(), tgt(tg), b(f)),
 		["C04", "proc", s, d, f, kind, p] => proc_case(out, parse_comp(s).unwrap(), parse_comp(d).unwrap(), b(f), kind, &unhex(p)),
 		["C04", "rec", s, d, kind, p] => rec_case(out, parse_comp(s).unwrap(), parse_comp(d).unwrap(), kind, &unhex(p)),
+		["C04", "leaves", s, tg, f] => leaves_case(out, args, rt, parse_comp(s).unwrap(), tgt(tg), b(f)),
+		["C04", "stream", s, d, f] => stream_check(out, rt, parse_comp(s).unwrap(), parse_comp(d).unwrap(), b(f)),
 		["C04", "e2e", fmt, tf, s, tg, f] => e2e_case(out, args, rt, n, fmt, tf, parse_comp(s).unwrap(), tgt(tg), b(f)),
 		_ => {}
 	}
@@ -610,7 +783,7 @@ fn replay_line(out: &mut Out, args: &Args, rt: &tokio::runtime::Runtime, n: &mut
 pub fn run(args: &Args) {
 	quiet_panics();
 	let mut out = Out::new(&args.out);
-	out.rule = "all 18 (src,dst,force) recompressor configurations and all 24 (src,target∈{keep,raw,gzip,brotli},force) converter configurations against the model; process_blob/recompress on valid, empty and truncated blobs of small seeded payloads; end-to-end convert_tiles_container for src × target × force × {versatiles,pmtiles,tar,directory,mbtiles} with payload classes {1 byte, incompressible 70 KiB, compressible 200 KiB, small real tile, duplicates, 999/1000 zero bytes} encoded by a foreign encoder, read back through get_reader (lookup and stream) and decoded with exactly the declared compression by flate2/brotli directly; non-trivial = the configuration has to change the encoding (force or src≠declared); distinct by case text".into();
+	out.rule = "all 18 (src,dst,force) recompressor configurations and all 24 (src,target∈{keep,raw,gzip,brotli},force) converter configurations against the model; process_blob/recompress on valid, empty and truncated blobs of small seeded payloads; end-to-end convert_tiles_container for src × target × force × {versatiles,pmtiles,tar,directory,mbtiles} with payload classes {1 byte, incompressible 70 KiB, compressible 200 KiB, small real tile, duplicates, 999/1000 zero bytes} encoded by a foreign encoder, read back through get_reader (lookup and stream) and decoded with exactly the declared compression by flate2/brotli directly; ; the same adversarial payloads through TileConverter::process_stream for all 18 configurations; one gzip→brotli PMTiles conversion of 16900 irregular tiles whose directory spills into > 16 KiB of leaf directories (metadata and every tile checked); non-trivial = the configuration has to change the encoding (force or src≠declared); distinct by case text".into();
 	let rt = runtime();
 	let mut n = 0usize;
 	if let Some(p) = &args.replay {
@@ -650,6 +823,20 @@ pub fn run(args: &Args) {
 	}
 	// C. codec laws on the real crates
 	law_checks(&mut out, args, &mut rng);
+	// C'. the stream path on its own, all 18 configurations, adversarial payloads
+	for s in COMPS {
+		for d in COMPS {
+			for f in [false, true] {
+				stream_check(&mut out, &rt, s, d, f);
+			}
+		}
+	}
+	// D'. PMTiles with leaf directories
+	leaves_case(&mut out, args, &rt, TileCompression::Gzip, Some(TileCompression::Brotli), false);
+	if args.thorough() {
+		leaves_case(&mut out, args, &rt, TileCompression::Uncompressed, Some(TileCompression::Gzip), false);
+		leaves_case(&mut out, args, &rt, TileCompression::Brotli, None, true);
+	}
 	// D. end to end
 	for fmt in FMTS {
 		for s in COMPS {
